@@ -37,7 +37,8 @@ def _inst(grp, n, tiers, st=None, count=None):
         'name': '%s_n%d' % (name, n) + ('_c%d' % count if count is not None else ''),
         'src': 'fq.cpp', 'engine': 'cbmc', 'shims': ['moodycamel'],
         'repo_sources': _SRC, 'rt_defs': {'VF_HAVE_THREAD_MODEL': 1}, 'models': ['aligned_alloc'],
-        'allow_externals': ['_ZN8dispenso6detail27registerFineSchedulerQuantaEv'],
+        'allow_externals': ['_ZN8dispenso6detail27registerFineSchedulerQuantaEv', '_ZN8dispenso6detail20allocSmallBufferImplEm', '_ZN8dispenso6detail22deallocSmallBufferImplEmPv'],
+        'native_extra': ['harness/C47/native_stubs.cpp'],
         'defs': {'VF_N': n, 'VF_GROUP': grp, 'VF_MQ_CAP': 4, 'VF_COUNT': count or 0, 'VF_SET': st or 0},
         'cflags': ['-DDISPENSO_TUNE_STEAL_RING_SHARING=1'],
         'unwind': 3, 'nthreads': 1, 'unwindset': {_R16: 17, _R4: 5}, 'timeout': 600, 'tiers': tiers,
